@@ -59,7 +59,8 @@ extern CK_ULONG vp_g_log[VP_LOG_MAX * VP_LOGF];
 VP_C_END
 
 /* enumerators are cast: the C++ front end resolves `enum + int` to ByteString operator+ (front-end defect F5) */
-#define OBJB(o, a) vp_in_objb[(o) * (int)VP_NB + (int)B_##a]
+/* cells are read modulo 3, so every 64-bit value of the ghost input denotes absent / false / true */
+#define OBJB(o, a) (vp_in_objb[(o) * (int)VP_NB + (int)B_##a] % 3)
 #define OBJU_HAS(o, a) vp_in_obju[((o) * (int)VP_NU + (int)U_##a) * 2]
 #define OBJU(o, a) vp_in_obju[((o) * (int)VP_NU + (int)U_##a) * 2 + 1]
 #define OBJX(o, a) vp_in_objx[(o) * (int)VP_NX + (int)X_##a]
